@@ -891,6 +891,8 @@ def _longtime(prog: Program, res: Result):
             pairs = [(k.value, v) for k, v in zip(n_.keys, n_.values) if isinstance(k, ast.Constant)]
         elif isinstance(n_, ast.Call) and attr_chain(n_.func) == "GFunction":
             pairs = [(k.arg, k.value) for k in n_.keywords if k.arg]
+            if prog.has_func("ghedesigner.gfunction.GFunction.__init__") and not any(isinstance(a_, ast.Starred) for a_ in n_.args):
+                pairs += list(bind_args(prog.func("ghedesigner.gfunction.GFunction.__init__"), n_).items())  # handed over by position
         d_ = dict(pairs)
         if isinstance(d_.get("r_b_values"), ast.Name) and isinstance(d_.get("g_lts"), ast.Name):
             RB_D, G_D = d_["r_b_values"].id, d_["g_lts"].id
